@@ -667,20 +667,23 @@ func (c *Ctx) ruleSweepDrains(id string) {
 			c.R.Fn(c.fname(f))
 			key := "sweep loop in " + c.fname(f)
 			var del *core.Call
-			for _, d := range core.CallsTo(f, h.del) {
-				del = d
+			var delAt ssa.Instruction // where the removal happens in f: the Delete itself or the call of the helper that makes it
+			for _, d := range c.callsToDeep(f, 2, h.del) {
+				for _, at := range c.liftTo(f, d.Instr) {
+					del, delAt = d, at
+				}
 			}
 			if del == nil {
 				ru7.Fail(key, c.whereI(ex.Instr), "the sweep never removes entries from the in-flight table")
 				continue
 			}
-			l := core.InnermostLoop(core.Loops(f), del.Instr.Block())
+			l := core.InnermostLoop(core.Loops(f), delAt.Block())
 			bad := ""
 			if l == nil {
 				bad = "the keys returned by the timeout list are not processed in a loop"
 			} else {
 				for _, pr := range l.Header.Preds {
-					if l.Blocks[pr] && !del.Instr.Block().Dominates(pr) {
+					if l.Blocks[pr] && !delAt.Block().Dominates(pr) {
 						bad = "an iteration of the sweep can skip Hash.Delete for the key it was given (at " + c.P.Pos(lastPos(pr)) + "): that entry has already left the timeout list, so it is never expired, retransmitted or released"
 					}
 				}
